@@ -96,7 +96,13 @@ let lazy_ args =
                     (string_of_cn (Model.nodes_encoded_len kids')) in
        (match fail with
         | None -> "ok " ^ tail
-        | Some (step, e) -> Printf.sprintf "%s step=%d %s" (res_err e) (int_of_nat step) tail)
+        | Some (step, e) ->
+          (* the state the failed call left behind (Mp4/BoxFail.v), serialised with the calculated headers (Mp4/BoxEdit.v) *)
+          let (kst, _) = Model.run_ops_st (parse_ops ops) Model.O kids in
+          let tail = (match Model.puts_calc kst, Model.lens_calc kst with
+              | Model.Ok b, Model.Ok n -> Printf.sprintf "put=%s elen=%s" (let h = hex b in if h = "" then "-" else h) (string_of_cn n)
+              | _ -> "put=? elen=?") in
+          Printf.sprintf "%s step=%d %s" (res_err e) (int_of_nat step) tail)
      | e -> res_err e ^ " step=parse")
   | _ -> "bad-args"
 
